@@ -5,6 +5,7 @@ import (
 	"fmt"
 	"math/big"
 	"reflect"
+	"strings"
 	"testing"
 
 	"github.com/0xPolygon/cdk-contracts-tooling/contracts/fep/etrog/polygonzkevmbridge"
@@ -93,6 +94,9 @@ type c20Gen struct {
 	etrogEv bool
 	seed    byte
 	frames  int
+
+	forceMatch bool // the next claim carries the event's index (when its ABI generation can)
+	wide       bool // the tree holds a frame with more than a thousand calls
 }
 
 func (g *c20Gen) claim() *c20Claim {
@@ -102,7 +106,7 @@ func (g *c20Gen) claim() *c20Claim {
 	if g.ch.Int(0, 5, "otherGeneration") == 0 {
 		c.Etrog = !c.Etrog
 	}
-	match := g.ch.Int(0, 2, "match") != 0
+	match := g.forceMatch || g.ch.Int(0, 2, "match") != 0
 	switch {
 	case match && c.Etrog:
 		c.Index = new(big.Int).Set(g.target)
@@ -185,6 +189,24 @@ func (g *c20Gen) frame(depth int, root bool) *c20Frame {
 			f.Calls = append(f.Calls, g.frame(depth-1, false))
 		}
 	}
+	if root && g.ch.Int(0, 59, "wideBatch") == 0 {
+		// a batch transaction: one frame makes more calls than the EVM's depth limit (fan-out is not bounded by it); the call
+		// that matches the event is one of them
+		w := choose.Pick(g.ch, []int{1023, 1024, 1025, 1026, 1100, 2100}, "batchWidth")
+		at := choose.Pick(g.ch, []int{0, 1, w / 2, 1022, 1023, 1024, w - 2, w - 1}, "matchingCallAt")
+		for i := 0; i < w; i++ {
+			g.frames++
+			c := &c20Frame{From: common.BytesToAddress([]byte{0xf1, byte(i >> 8), byte(i)}), To: c20Other, Input: hexutil.Bytes{0xde, 0xad, 0xbe, 0xef}, Value: "0x0", Type: "CALL"}
+			if i == at {
+				g.forceMatch = true
+				c.To, c.claim = c20Bridge, g.claim()
+				c.Input = c20Pack(c.claim)
+				g.forceMatch = false
+			}
+			f.Calls = append(f.Calls, c)
+		}
+		g.wide = true
+	}
 	return f
 }
 
@@ -256,7 +278,7 @@ func c20Check(ch choose.Chooser) (err error, nontrivial bool, shape string, samp
 		FromAddress: common.HexToAddress("0xeeee")}
 	before := *claim
 	callErr := bridgesync.VerifSetClaimCalldata(claim, &c20RPC{trace: trace}, c20Bridge, common.HexToHash("0xabc"))
-	shape = fmt.Sprintf("etrog=%v frames=%d depth=%d live=%d decoys=%d trace=%x", g.etrogEv, g.frames, maxDepth, len(live), decoys, crypto.Keccak256(trace)[:6])
+	shape = fmt.Sprintf("etrog=%v frames=%d depth=%d live=%d decoys=%d wide=%v trace=%x", g.etrogEv, g.frames, maxDepth, len(live), decoys, g.wide, crypto.Keccak256(trace)[:6])
 	nontrivial = maxDepth >= 2 && decoys >= 1
 	sample = map[string]any{"event_global_index": "0x" + g.target.Text(16), "frames": g.frames, "depth": maxDepth, "live_matching_frames": len(live), "decoys": decoys, "root_reverted": root.reverted}
 	if len(live) == 0 {
@@ -285,6 +307,9 @@ func TestC20(t *testing.T) {
 	rapid.Check(t, func(rt *rapid.T) {
 		err, nt, shape, sample := c20Check(choose.Rapid{T: rt})
 		rec.Case(nt, shape)
+		if strings.Contains(shape, "wide=true") {
+			rec.Class("trees_with_a_frame_of_more_than_a_thousand_calls")
+		}
 		if nt && rec.WantSample() {
 			rec.Sample(sample)
 		}
